@@ -12,7 +12,7 @@ LEVEL = "exploration"
 RULE = ("Hypothesis stateful testing: one RuleBasedStateMachine per optimizer owns ONE optimizer instance. Rules: "
         "optimize(task, seed) on tasks of any encoding / dimension / direction (so consecutive runs differ), with "
         "configurations that stop by max_cycles, fitness_error or early stopping (one configuration in four is a long run of 15..30 cycles quick / ..100 thorough that ends by the cycle budget, so that schedules derived from max_cycles unfold); set_config_parameters(d) between "
-        "runs. After every optimize rule the result of the reused instance must equal - exactly, every position, cost, "
+        "runs; one rule re-runs on the SAME variables with another objective, direction and seed. After every optimize rule the result of the reused instance must equal - exactly, every position, cost, "
         "fitness and rate of every generation - the result of a freshly constructed instance with the same "
         "configuration on an equal task with the same seed, and len(rates) must equal the number of cycles this run "
         "executed. Histories hold 1..4 operations (0..3 earlier runs). Non-trivial = history with >= 1 earlier run that "
@@ -104,6 +104,22 @@ def make_machine(optimizer, tier, ctx):
         @rule(cfg=cfg_st)
         def set_config(self, cfg):
             self.steps.append({"op": "config", "config": cfg})
+
+        @rule(variant=strategies.task_spec(max_dim=2, encodings=("cont_multi",)), noise=st.integers(0, 10 ** 6))
+        def optimize_same_variables_other_objective(self, variant, noise):
+            # same search space as the previous run, another objective / direction / seed: anything remembered about
+            # the previous run's agents (positions, costs) is now wrong
+            prev = [s_ for s_ in self.steps if s_["op"] == "optimize"]
+            if not prev:
+                return
+            task = copy.deepcopy(prev[-1]["task"])
+            task["objective"] = dict(variant["objective"], style="direct")
+            task["objective"]["terms"] = (variant["objective"]["terms"] * 3)[:len(task["objective"]["terms"])] \
+                if task.get("weights") is not None else variant["objective"]["terms"][:1]
+            task["minmax"] = variant["minmax"]
+            task["seed"] = variant["seed"]
+            self.steps.append({"op": "optimize", "task": task, "pre_noise": noise})
+            self.check()
 
         def check(self):
             # re-execute the whole history on a new reused instance: the machine stays a pure function of its steps
